@@ -280,6 +280,8 @@ def execute(sc, ctx):
                 ftp = failing(tp)
             else:
                 ffp = failing(fp)
+        arg_snap = [(nm, a, copy.deepcopy(a)) for nm, a in (("path", fpath), ("t_profile", ftp), ("bp_profile", bpp))
+                    if isinstance(a, (np.ndarray, list))]
         try:
             ret = fr.add_signal(fpath, ftp, ffp, bpp, **kw)
         except InjectedCallbackError:
@@ -297,6 +299,13 @@ def execute(sc, ctx):
             ctx.violation("inject", "C06/inject/raises:%s/bounding=%s%s" % (type(e).__name__, bk,
                                                                           "+integrate_f" if kw.get("integrate_f_profile") else ""),
                           "range %r on band [%r, %r): %r" % (r, fr.fmin, fr.fmin + fr.fchans * fr.df, e))
+            return
+        # the arrays and lists handed in are the caller's: unchanged; what comes back is not a window onto the frame
+        for nm, a, snap in arg_snap:
+            same = np.array_equal(np.asarray(a), np.asarray(snap)) and type(a) is type(snap)
+            if not ctx.check(same, "args", "C06/argument_modified/" + nm, "the caller's %s array was changed by the injection" % nm):
+                return
+        if not ctx.check(not np.shares_memory(ret, fr.data), "alias", "C06/returned_signal_aliases_frame_data", ""):
             return
         ret = np.asarray(ret)
         ctx.event("inject", i, ret)
